@@ -7,6 +7,7 @@
 EXTENDS Symbols, Json
 Rec == [fam |-> fam, tphase |-> tphase, prog |-> prog, outcome |-> outcome, bad |-> bad,
         viol |-> IF outcome = "PASS" THEN {} ELSE Violations,
+        report |-> IF outcome = "PASS" THEN Report ELSE <<>>, refsOf |-> IF outcome = "PASS" THEN RefsOf ELSE <<>>,
         obs |-> [k \in 1..Len(obs) |-> [i |-> obs[k].i, k |-> obs[k].exp.k, argv |-> obs[k].exp.argv,
                                          root |-> obs[k].exp.root, comps |-> obs[k].exp.comps,
                                          name |-> obs[k].exp.name, lines |-> obs[k].exp.lines]]]
